@@ -18,8 +18,8 @@ CONSTANTS MaxTs,      \* timestamps are 0..MaxTs
           NeModes,    \* subset of BOOLEAN: TRUE = report strategy additionally contains NonEmptyContent
           FixEvict    \* TRUE: windows that have not opened yet survive eviction (the repaired code)
 
-VARIABLES width, slide, ne, active, appTime, stream, fired
-vars == <<width, slide, ne, active, appTime, stream, fired>>
+VARIABLES width, slide, ne, active, appTime, stream, fired, flushed
+vars == <<width, slide, ne, active, appTime, stream, fired, flushed>>
 
 CeilDiv(a, b) == (a + b - 1) \div b
 Sat(x) == IF x < 0 THEN 0 ELSE x             \* f64 -> usize cast saturates at 0
@@ -53,12 +53,21 @@ Add(t) ==
                    IN  /\ appTime' = t
                        /\ fired' = Append(fired, [idx |-> id, ts |-> t, close |-> mx.close, items |-> mx.items])
               ELSE UNCHANGED <<appTime, fired>>
-  /\ UNCHANGED <<width, slide, ne>>
+  /\ UNCHANGED <<width, slide, ne, flushed>>
+
+\* flush() (called by RSPEngine::stop): one final report holding the merged contents of all windows that are still
+\* active, if there is any item in them.  Not a window report in the sense of C09 (its content is not one interval);
+\* specified here because the engine's last firing is produced by it.
+Flush ==
+  /\ flushed = <<>> /\ stream # <<>>
+  /\ LET merged == UNION {w.items : w \in active}
+     IN  flushed' = IF merged = {} THEN <<[items |-> {}, sent |-> FALSE]>> ELSE <<[items |-> merged, sent |-> TRUE]>>
+  /\ UNCHANGED <<width, slide, ne, active, appTime, stream, fired>>
 
 Init == /\ width \in Widths /\ slide \in Slides /\ ne \in NeModes
-        /\ active = {} /\ appTime = 0 /\ stream = <<>> /\ fired = <<>>
+        /\ active = {} /\ appTime = 0 /\ stream = <<>> /\ fired = <<>> /\ flushed = <<>>
 
-Next == \E t \in 0..MaxTs : Add(t)
+Next == (flushed = <<>> /\ \E t \in 0..MaxTs : Add(t)) \/ Flush
 Spec == Init /\ [][Next]_vars
 
 ---------------------------------------------------------------------------
@@ -86,6 +95,15 @@ ExactlyOnce ==
      \A c \in (stream[1] + 1)..stream[Len(stream)] :
         (c % slide = 0 /\ (ne => ItemsIn(c - width, c) # {})) =>
             Cardinality({k \in 1..Len(fired) : fired[k].close = c}) = 1
+
+\* flush requirement: the merged content is exactly the items whose timestamp lies in a window that still contains the last
+\* timestamp T, i.e. the items at or after the smallest aligned open o with o <= T < o + width
+FlushExact ==
+  flushed # <<>> =>
+     LET T == stream[Len(stream)]
+         opens == {o \in (0 - width)..T : (o + width) % slide = 0 /\ o <= T /\ T < o + width}
+         expected == IF opens = {} THEN {} ELSE LET omin == CHOOSE o \in opens : \A p \in opens : o <= p IN ItemsIn(omin, T + 1)
+     IN  flushed[1].items = expected /\ flushed[1].sent = (expected # {})
 
 \* structural invariant of the code-shaped part: one window per key
 UniqueKeys == \A v, w \in active : Key(v) = Key(w) => v = w
